@@ -23,6 +23,7 @@ META = {
         "C10.P3 packet slicing is an exact partition; resolve(True) only if every send_data was truthy; one resolve per block",
         "C10.P4 send_message reports True only if every block's wait() was truthy",
         "C10.P5 BlockSendInfo maps resolve(True/False) to wait() True/False",
+        "C10.P6 no connection socket is configured for an abortive close (SO_LINGER on, timeout 0), which would discard bytes already reported as sent",
     ],
     "does_not_decide": ["kernel socket-buffer behaviour, the peer's pacing (the rule is on the use of the count, the only thing the code controls)"],
     "assumptions": ["socket.send returns the number of bytes accepted (stdlib contract)", "a socket made non-blocking with setblocking(0) stays non-blocking"],
@@ -151,6 +152,16 @@ def check_send_data(ctx, cls, func):
 
 def _exit_is_exact(fn, loop, test, tainted, S):
     """Loop continues while `test`; decide whether not-test implies 'nothing remains'."""
+    if isinstance(test, ast.BoolOp) and isinstance(test.op, ast.And):
+        # the loop ends as soon as ONE conjunct is false: every conjunct must be an exact remaining-bytes test,
+        # otherwise the loop can end early and the constant success return that follows it is wrong
+        verdicts = []
+        for part in test.values:
+            if not rules.expr_depends_on(part, tainted):
+                verdicts.append(False)  # e.g. `and not self._stop_thread`: ends the loop with bytes remaining
+            else:
+                verdicts.append(_exit_is_exact(fn, loop, part, tainted, S))
+        return all(v is True for v in verdicts)
     # idiom 1: flag variable assigned from an emptiness test of the remaining buffer
     if isinstance(test, ast.Name):
         flag = test.id
@@ -470,6 +481,40 @@ def check_block_send_info(ctx):
     ctx.ob("C10.P5", "BlockSendInfo.wait", ok, "wait() reads the result only after the trigger was awaited" if ok else "wait() can return without awaiting the result", key="wait-before-read", where=wait.where)
 
 
+def check_linger(ctx):
+    """Accepted bytes must survive close(): no abortive close (SO_LINGER on, timeout 0) on the connection sockets."""
+    import struct
+
+    repo = ctx.repo
+    n = 0
+    for cls in [repo.cls("TcpConnection")] + repo.subclasses("TcpConnection"):
+        ctx.touch(cls)
+        for call in calls_in(cls.node, nested=True):
+            if not (isinstance(call.func, ast.Attribute) and call.func.attr == "setsockopt"):
+                continue
+            n += 1
+            if not any("SO_LINGER" in norm(a) for a in call.args):
+                continue
+            val = call.args[-1]
+            onoff = linger = None
+            if isinstance(val, ast.Call) and (call_name(val) or "").endswith("struct.pack"):
+                try:
+                    folded = [repo.fold(a, cls.module, cls) for a in val.args]
+                    packed = struct.pack(*folded)
+                    onoff, linger = struct.unpack("ii", packed[:8])
+                except Exception as exc:
+                    raise AnalysisError(f"{cls.name}: SO_LINGER value `{norm(val)}` cannot be folded: {exc}") from exc
+            else:
+                raise AnalysisError(f"{cls.name}: SO_LINGER value `{norm(val)}` is not a struct.pack constant")
+            bad = onoff != 0 and linger == 0
+            ctx.ob("C10.P6", cls.name, not bad,
+                   "SO_LINGER keeps a graceful close" if not bad else
+                   "SO_LINGER is enabled with timeout 0: close() resets the connection and discards bytes that send_data already reported as sent",
+                   key=norm(call), where=cls.where, l_onoff=onoff, l_linger=linger)
+    ctx.floor("setsockopt sites inspected", n, 2)
+    ctx.ob("C10.P6", "TcpConnection cone", True, f"{n} setsockopt sites inspected for an abortive-close configuration", key="sites", where="secsgem/common", sites=n)
+
+
 def run(ctx):
     repo = ctx.repo
     # send_data implementations in class cones that put the socket into non-blocking mode
@@ -492,3 +537,4 @@ def run(ctx):
     check_process_send_queue(ctx)
     check_send_message(ctx)
     check_block_send_info(ctx)
+    check_linger(ctx)
